@@ -9,6 +9,7 @@ Families (property quantifier text + DESIGN §6 C10):
             Fibonacci neighbours (slow Euclid), operands with trailing-zero runs
 Lines are shuffled (one rng) so that the runner's contiguous chunks are balanced in cost.
 """
+import random
 from .common import *
 
 RULE = ('operation lines from corpus + directed families (see tools/gen/c10.py docstring) + seeded structured random; '
@@ -17,7 +18,8 @@ RULE = ('operation lines from corpus + directed families (see tools/gen/c10.py d
         'token longer than 2 hex digits')
 ASSUMPTIONS = ['H_divsteps_done (iterations() trips reach g = 0) is exercised, not proved: every inversion/gcd line checks it '
                '(debug_assert in dbgchk, L1 = L0 comparison)',
-               'ConstMontyForm is exercised for six compile-time moduli only (harness/src/ops/c10.rs CM0..CM5)']
+               'ConstMontyForm is exercised for six compile-time moduli only (harness/src/ops/c10.rs CM0..CM5)',
+               'c10.hook.* lines call the safegcd building blocks (inv_mod2_62, iterations, jump, fg, de, divsteps(_vartime), the UnsatInt / BoxedUnsatInt conversions and arithmetic, inverter fields, norm) on plain limb lists through crypto_bigint::verif_hooks; jump only with f odd (or f even, g odd, delta > 0) and |delta| <= 2^63 - 64, de only with |t_i0| + |t_i1| <= 2^62, mul never by i64::MIN, add / neg / leading_zeros only where no u64 operation overflows: elsewhere the crate loops forever or the two build profiles differ by an overflow trap']
 
 FIXED = [1, 2, 3, 4, 6, 8, 16, 32]
 
@@ -373,8 +375,261 @@ def gen(tier, rng):
             out(f"c10.b.inv_odd_mod_mixed {la} {hx(rng.getrandbits(rng.randrange(1, 64 * la + 1)))} {lb} {hx(m)}")
 
     rng.shuffle(lines)
-    return lines
+    # crate-internal safegcd building blocks (verif_hooks): own PRNG stream, emitted after the (unchanged) public lines
+    hooks = hook_lines(tier, random.Random(rng.getrandbits(32)))
+    random.Random(1).shuffle(hooks)
+    return lines + hooks
 
+
+
+# ---------------------------------------------------------------- crate-internal safegcd building blocks (verif_hooks)
+
+M62 = (1 << 62) - 1
+HOOK_LIMBS = [1, 2, 3, 4, 6, 10]                     # `hook::fixed::<L>` instantiations in harness/src/ops/c10.rs
+HOOK_SAT = [(1, 3), (2, 4), (3, 5), (4, 6), (6, 8), (8, 10)]
+
+
+def nl62(sat):
+    return (64 * sat + 64 + 61) // 62
+
+
+def to_unsat(x, n):
+    r = x % (1 << (62 * n))
+    return [(r >> (62 * i)) & M62 for i in range(n)]
+
+
+def ltok(l):
+    return ','.join(hx(v) for v in l)
+
+
+def i64tok(v):
+    return hx(v % (1 << 64))
+
+
+def mattok(t):
+    return ','.join(i64tok(v) for v in t)
+
+
+def inv62(w):
+    return pow(w, -1, 1 << 62)
+
+
+def py_jump(f, g, delta, steps=62):
+    """62 divsteps on integers; the transition matrix scaled by 2^62 (what `jump` is specified to return)"""
+    u, v, q, r = 1, 0, 0, 1
+    for _ in range(steps):
+        if delta > 0 and g & 1:
+            delta, f, g, u, v, q, r = 1 - delta, g, (g - f) >> 1, 2 * q, 2 * r, q - u, r - v
+        else:
+            b = g & 1
+            delta, g, u, v, q, r = 1 + delta, (g + b * f) >> 1, 2 * u, 2 * v, q + b * u, r + b * v
+    return delta, (u, v, q, r)
+
+
+def unsat_values(rng, n, cnt):
+    """signed values at the 62-bit limb boundaries, carries through every limb, both signs"""
+    top = 1 << (62 * n - 1)
+    vs = [0, 1, -1, top - 1, -top, -top + 1, 2, -2]
+    for k in range(1, n + 1):
+        p = 1 << (62 * k)
+        vs += [p - 1, -(p - 1), (p >> 1), -(p >> 1)]
+        if k < n:
+            vs += [p, -p, p + 1, -p - 1]
+    vs += [rng.getrandbits(62 * n) - top for _ in range(cnt)]
+    vs += [rng.getrandbits(rng.randrange(1, 62 * n)) * rng.choice([1, -1]) for _ in range(cnt)]
+    return vs
+
+
+def garbage_limbs(rng, n, hi):
+    """limbs with bits above 62 set (outside the type's invariant; mirror only)"""
+    return [rng.choice([rng.getrandbits(64) % hi, (1 << 62) | rng.getrandbits(62), hi - 1, rng.getrandbits(62)]) for _ in range(n)]
+
+
+def hook_matrices(rng, fs, gs):
+    E = 1 << 62
+    ms = [(1, 0, 0, 1), (0, 0, 0, 0), (E, 0, 0, E), (-E, 0, 0, -E), (0, E, -E, 0), (0, -E, E, 0), (E >> 1, E >> 1, -(E >> 1), E >> 1),
+          (E, 0, E >> 1, E >> 1), (E - 1, 1, -1, -(E - 1)), (1, -(E - 1), E - 1, 1)]
+    for _ in range(3):
+        d, t = py_jump(rng.choice(fs) | 1, rng.choice(gs), rng.choice([1, 0, -1, 2, -3, 7, 62, -62]))
+        ms.append(t)
+    return ms
+
+
+def hook_lines(tier, rng):
+    q = tier == 'quick'
+    L = []
+    out = L.append
+    # ---- inv_mod2_62
+    ws = [1, 3, 5, WMAX, WMAX - 2, (1 << 63) + 1, (1 << 62) + 1, (1 << 62) - 1, (1 << 61) + 1, 0xaaaaaaaaaaaaaaab, 0x5555555555555555]
+    ws += [rng.getrandbits(64) | 1 for _ in range(20 if q else 400)] + [0, 2, 1 << 63, 1 << 62, rng.getrandbits(64) & ~1]
+    for w in ws:
+        out(f"c10.hook.inv_mod2_62 {hx(w)}")
+    for _ in range(5):
+        out(f"c10.hook.inv_mod2_62 {hx(rng.getrandbits(64) | 1)},{hx(rng.getrandbits(64))},{hx(rng.getrandbits(64))}")
+    # ---- iterations: every pair of bit lengths around the threshold 46, the widths in use, zero
+    for f in range(40, 53):
+        for g in range(40, 53):
+            out(f"c10.hook.iterations {f} {g}")
+    for b in [0, 1, 2, 45, 46, 47, 62, 124, 186, 372, 620, 2170, 4092, 1000000]:
+        for c in sorted({0, 1, 45, 46, 47, b, rng.randrange(b + 1)}):
+            out(f"c10.hook.iterations {b} {c}")
+            out(f"c10.hook.iterations {c} {b}")
+    for sat in list(range(1, 36)) + [64, 100, 1000]:
+        out(f"c10.hook.bnlimbs {sat}")
+    # ---- jump: trailing-zero runs of every length in g, deltas of both signs and large magnitude, both parities of
+    #      the swap, f of both signs as an i64, multi-limb slices (only limb 0 is read)
+    deltas = [1, 0, -1, 2, -2, 3, 5, 6, -5, -6, 31, 61, 62, 63, -61, -62, -63, 1 << 20, -(1 << 20), 1 << 62, -(1 << 62),
+              (1 << 63) - 64, -((1 << 63) - 64)]
+    fodd = [1, 3, M62, M62 - 2, (1 << 61) + 1, 0x2aaaaaaaaaaaaaab, 0x1555555555555555] + [rng.getrandbits(62) | 1 for _ in range(6 if q else 60)]
+    for tz in range(0, 62):
+        for _ in range(2 if q else 8):
+            g = ((rng.getrandbits(62 - tz) | 1) << tz) & M62
+            out(f"c10.hook.jump {hx(rng.choice(fodd))} {hx(g)} {i64tok(rng.choice(deltas))}")
+        out(f"c10.hook.jump {hx(rng.choice(fodd))} {hx(1 << tz)} {i64tok(1)}")
+    for f in fodd:
+        for g in [0, 1, f, M62, M62 - 1, f ^ 2, (f * 3) & M62, (-f) & M62, 1 << 61]:
+            for d in (rng.sample(deltas, 3) if q else deltas):
+                out(f"c10.hook.jump {hx(f)} {hx(g)} {i64tok(d)}")
+    for d in deltas:
+        out(f"c10.hook.jump {hx(rng.getrandbits(62) | 1)} {hx(rng.getrandbits(62))} {i64tok(d)}")
+        out(f"c10.hook.jump {hx(rng.getrandbits(62) | 1)},{hx(rng.getrandbits(62))} {hx(rng.getrandbits(62))},{hx(rng.getrandbits(62))},0 {i64tok(d)}")
+    for _ in range(20 if q else 300):       # even f with an odd g and delta > 0: the first step swaps (what Uint::gcd may hand over)
+        out(f"c10.hook.jump {hx(rng.getrandbits(61) << 1)} {hx(rng.getrandbits(62) | 1)} {i64tok(rng.choice([1, 2, 5, 62, 1 << 20]))}")
+    for _ in range(30 if q else 500):       # 64-bit words (bits 62, 63 set): beyond the 62-bit limb invariant
+        f = rng.getrandbits(64) | 1
+        g = rng.choice([rng.getrandbits(64), 1 << 62, 1 << 63, 3 << 62, (rng.getrandbits(2) << 62)])
+        out(f"c10.hook.jump {hx(f)} {hx(g)} {i64tok(rng.choice(deltas))}")
+    # ---- fg / de / unsat arithmetic per limb count
+    for n in HOOK_LIMBS:
+        vs = unsat_values(rng, n, 3 if q else 12)
+        lows = [v & M62 for v in vs]
+        mats = hook_matrices(rng, lows, lows)
+        reps = (14 if n <= 4 else 6) if q else 80
+        for _ in range(reps):
+            f, g, t = rng.choice(vs), rng.choice(vs), rng.choice(mats)
+            out(f"c10.hook.fg {ltok(to_unsat(f, n))} {ltok(to_unsat(g, n))} {mattok(t)}")
+            out(f"c10.hook.bfg {ltok(to_unsat(f, n))} {ltok(to_unsat(g, n))} {mattok(t)}")
+        for _ in range(reps // 2):            # a real step: (f, g) with its own jump matrix (exact division by 2^62)
+            f, g, d = rng.choice(vs) | 1, rng.choice(vs), rng.choice([1, 0, -1, 5, -7])
+            _, t = py_jump(f & M62, g & M62, d)
+            op = rng.choice(["fg", "bfg"])
+            out(f"c10.hook.{op} {ltok(to_unsat(f, n))} {ltok(to_unsat(g, n))} {mattok(t)}")
+        for _ in range(4 if q else 20):        # extreme entries, garbage limbs
+            t = tuple(rng.choice([(1 << 63) - 1, -((1 << 63) - 1), rng.getrandbits(64) - (1 << 63) or 1, 1 << 62, -(1 << 62)]) for _ in range(4))
+            out(f"c10.hook.fg {ltok(to_unsat(rng.choice(vs), n))} {ltok(to_unsat(rng.choice(vs), n))} {mattok(t)}")
+            out(f"c10.hook.bfg {ltok(garbage_limbs(rng, n, 1 << 64))} {ltok(garbage_limbs(rng, n, 1 << 64))} {mattok(rng.choice(mats))}")
+            out(f"c10.hook.fg {ltok(garbage_limbs(rng, n, 1 << 64))} {ltok(garbage_limbs(rng, n, 1 << 64))} {mattok(rng.choice(mats))}")
+        # de: modulus odd, room for (-2M, M); d, e at the ends of that interval
+        for _ in range((6 if n <= 4 else 3) if q else 30):
+            bits = rng.choice([2, 3, 61, 62, 63, 62 * n - 3, rng.randrange(2, 62 * n - 2)])
+            bits = min(max(bits, 2), max(62 * n - 3, 2))
+            M = rng.choice([(1 << bits) - 1, (1 << (bits - 1)) | 1, rng.getrandbits(bits) | 1 | (1 << (bits - 1)), 3, 1])
+            if 4 * M >= (1 << (62 * n)):
+                M = 1
+            inv = inv62(M & M62)
+            ds = [-2 * M + 1, -M, -M - 1, -1, 0, 1, M - 1, rng.randrange(-2 * M + 1, M), rng.randrange(-2 * M + 1, M)]
+            E = 1 << 62
+            tms = [t for t in mats if abs(t[0]) + abs(t[1]) <= E and abs(t[2]) + abs(t[3]) <= E]
+            for _ in range(5 if q else 12):
+                d, e = rng.choice(ds), rng.choice(ds)
+                t = rng.choice(tms)
+                if rng.randrange(2):
+                    _, t = py_jump(M & M62, rng.getrandbits(62), rng.choice([1, 0, -2, 9]))
+                op = rng.choice(["de", "bde"])
+                out(f"c10.hook.{op} {ltok(to_unsat(M, n))} {i64tok(inv)} {mattok(t)} {ltok(to_unsat(d, n))} {ltok(to_unsat(e, n))}")
+            # outside the contract (mirror + value arithmetic): arbitrary d, e, a wrong inverse, garbage limbs
+            t = rng.choice(tms)
+            out(f"c10.hook.de {ltok(to_unsat(M, n))} {i64tok(rng.getrandbits(64))} {mattok(t)} {ltok(to_unsat(rng.choice(vs), n))} {ltok(to_unsat(rng.choice(vs), n))}")
+            out(f"c10.hook.bde {ltok(to_unsat(rng.choice(vs), n))} {i64tok(inv)} {mattok(t)} {ltok(to_unsat(rng.choice(vs), n))} {ltok(to_unsat(rng.choice(vs), n))}")
+            out(f"c10.hook.de {ltok(garbage_limbs(rng, n, 1 << 64))} {i64tok(inv)} {mattok(t)} {ltok(garbage_limbs(rng, n, 1 << 64))} {ltok(garbage_limbs(rng, n, 1 << 64))}")
+        # add / neg / shr / eq / is_negative / leading_zeros / bits / mul
+        ks = [0, 1, -1, 2, -2, 1 << 62, -(1 << 62), (1 << 62) - 1, (1 << 63) - 1, -((1 << 63) - 1), 1 << 61, -(1 << 61)] + [rng.getrandbits(64) - (1 << 63) or 1 for _ in range(3)]
+        sel = vs if not q else vs[:8] + rng.sample(vs[8:], min(len(vs) - 8, 10 if n <= 4 else 5))
+        for a in sel:
+            A = ltok(to_unsat(a, n))
+            for b in {-a, a, 1, -1, rng.choice(vs), (1 << (62 * n - 1)) - 1 - a}:
+                out(f"c10.hook.{rng.choice(['add', 'badd'])} {A} {ltok(to_unsat(b, n))}")
+            for b in {a, a + 1, a ^ (1 << rng.randrange(62 * n)), rng.choice(vs)}:
+                out(f"c10.hook.eq {A} {ltok(to_unsat(b, n))}")
+            for k in (rng.sample(ks, 4) if q else ks):
+                out(f"c10.hook.{rng.choice(['mul', 'bmul'])} {A} {i64tok(k)}")
+            for op in ("neg", "shr", "is_negative", "lz", "bits", "bneg", "bshr", "bis_negative", "blz", "bbits"):
+                out(f"c10.hook.{op} {A}")
+        for _ in range(3 if q else 20):        # limbs beyond 62 bits where the operation cannot overflow a u64
+            G = ltok(garbage_limbs(rng, n, 1 << 64))
+            out(f"c10.hook.mul {G} {i64tok(rng.choice(ks))}")
+            out(f"c10.hook.bmul {G} {i64tok(rng.choice(ks))}")
+            out(f"c10.hook.shr {G}")
+            out(f"c10.hook.is_negative {G}")
+            out(f"c10.hook.eq {G} {G}")
+            H = garbage_limbs(rng, n, (1 << 63) - 4)
+            out(f"c10.hook.neg {ltok(H)}")
+            out(f"c10.hook.add {ltok(H)} {ltok(garbage_limbs(rng, n, (1 << 63) - 4))}")
+    # ---- divsteps (fixed and boxed, constant-time and vartime)
+    for n in ([1, 2, 3, 4, 6] if q else HOOK_LIMBS):
+        for _ in range((8 if n <= 3 else 4) if q else 40):
+            # the documented domain: modulus and value below 2^(62 n - 64) (here - 66); now and then beyond it
+            # (the arithmetic wraps modulo 2^(62 n): mirror only)
+            cap = 62 * n - 66 if rng.randrange(5) else 62 * n - 3
+            bits = rng.choice([2, 8, 61, 62, 63, cap, rng.randrange(2, max(cap, 3))])
+            bits = min(max(bits, 2), max(cap, 2))
+            M = rng.choice([(1 << bits) - 1, (1 << (bits - 1)) | 1, rng.getrandbits(bits) | 1 | (1 << (bits - 1)), 3 * 5 * 7 * 11])
+            if 4 * M >= (1 << (62 * n)):
+                M = 3
+            inv = inv62(M & M62)
+            gs = [0, 1, 2, M - 1, M, M + 1, rng.randrange(M), rng.randrange(M), (rng.randrange(M) | 1) << rng.randrange(1, 40), 3 * rng.randrange(M)]
+            gs = [g for g in gs if 4 * g < (1 << (62 * n))]
+            es = [1, 0, -1, M - 1, -2 * M + 1, rng.randrange(M), rng.randrange(-2 * M + 1, M)]
+            for _ in range(3 if q else 8):
+                g, e, vt = rng.choice(gs), rng.choice(es), rng.randrange(2)
+                out(f"c10.hook.divsteps {vt} {ltok(to_unsat(e, n))} {ltok(to_unsat(M, n))} {ltok(to_unsat(g, n))} {i64tok(inv)}")
+                d0 = rng.choice([0, 0, rng.randrange(-2 * M + 1, M)])
+                out(f"c10.hook.bdivsteps {vt} {ltok(to_unsat(d0, n))} {ltok(to_unsat(e, n))} {ltok(to_unsat(M, n))} {ltok(to_unsat(g, n))} {i64tok(inv)}")
+            g = rng.choice(gs)
+            out(f"c10.hook.divsteps 1 {ltok(to_unsat(1, n))} {ltok(to_unsat(M, n))} {ltok(to_unsat(-g, n))} {i64tok(inv)}")       # negative g
+            out(f"c10.hook.divsteps 1 {ltok(to_unsat(1, n))} {ltok(to_unsat(M, n))} {ltok(to_unsat(g, n))} {i64tok(rng.getrandbits(62))}")  # wrong inverse
+    # ---- conversions and the inverter
+    for (sat, n) in HOOK_SAT:
+        W = 1 << (64 * sat)
+        xs = [0, 1, W - 1, W >> 1, (W >> 1) - 1] + [1 << k for k in range(0, 64 * sat, 31)] + [(1 << k) - 1 for k in (62, 64, 124, 128, 186, 192) if k <= 64 * sat]
+        xs += [rng.getrandbits(64 * sat) for _ in range(4 if q else 30)] + [value(rng, sat) for _ in range(4 if q else 30)]
+        for x in xs:
+            out(f"c10.hook.from_uint {sat} {n} {hx(x)}")
+            out(f"c10.hook.to_uint {sat} {n} {ltok(to_unsat(x, n))}")
+        top = 1 << (62 * n - 1)
+        for v in [W, W + 1, top - 1, -1, -W, -top, rng.getrandbits(62 * n) - top, rng.getrandbits(62 * n - 1)]:
+            out(f"c10.hook.to_uint {sat} {n} {ltok(to_unsat(v, n))}")                       # truncated / negative (debug assertion)
+        out(f"c10.hook.to_uint {sat} {n} {ltok(garbage_limbs(rng, n - 1, 1 << 64) + [rng.getrandbits(61)])}")
+        ms = [1, 3, W - 1, (W >> 1) + 1, rng.getrandbits(64 * sat) | 1, rng.getrandbits(rng.randrange(2, 64 * sat + 1)) | 1]
+        for m in ms:
+            for adj in [0, 1, m - 1, m, W - 1, rng.getrandbits(64 * sat)]:
+                out(f"c10.hook.inverter {sat} {hx(m)} {hx(adj % W)}")
+            nv = [-2 * m + 1, -m - 1, -m, -m + 1, -1, 0, 1, m - 1, rng.randrange(-2 * m + 1, m), rng.randrange(-2 * m + 1, m), m, -2 * m, rng.getrandbits(62 * n) - top]
+            for v in nv:
+                for neg in ((rng.randrange(2),) if q else (0, 1)):
+                    out(f"c10.hook.norm {sat} {hx(m)} {ltok(to_unsat(v, n))} {neg}")
+    out("c10.hook.from_uint 2 3 1")       # the crate's own "incorrect number of limbs" panic
+    out("c10.hook.to_uint 2 3 1,0,0")
+    out("c10.hook.from_uint 1 4 1")
+    for sat in ([1, 2, 3, 5, 9] if q else list(range(1, 12)) + [17, 33]):
+        n = nl62(sat)
+        W = 1 << (64 * sat)
+        for x in [0, 1, W - 1, W >> 1, rng.getrandbits(64 * sat), value(rng, sat)]:
+            for nn in sorted({n, n + 1, n + rng.randrange(2, 6)}):
+                out(f"c10.hook.bfrom_uint {sat} {hx(x)} {nn}")
+            out(f"c10.hook.bto_uint {ltok(to_unsat(x, n))} {64 * sat}")
+        out(f"c10.hook.bfrom_uint {sat} {hx(rng.getrandbits(64 * sat))} {n - 1}")          # too few limbs: debug assertion, release truncates
+        top = 1 << (62 * n - 1)
+        for v in [W, top - 1, -1, -top, rng.getrandbits(62 * n) - top]:
+            out(f"c10.hook.bto_uint {ltok(to_unsat(v, n))} {64 * sat}")                    # truncated / negative (assert!)
+        out(f"c10.hook.bto_uint {ltok(to_unsat(rng.getrandbits(62 * n - 1), n))} {64 * (sat + 1)}")    # limb count does not fit the precision
+        out(f"c10.hook.bto_uint {ltok(to_unsat(rng.getrandbits(62 * n - 1), n + 1))} {64 * sat}")
+        for m in [1, 3, W - 1, rng.getrandbits(64 * sat) | 1]:
+            for sa in sorted({sat, 1, rng.randrange(1, sat + 1)}):
+                out(f"c10.hook.binverter {sat} {hx(m)} {sa} {hx(rng.choice([0, 1, m - 1, rng.getrandbits(64 * sa)]) % (1 << (64 * sa)))}")
+            for v in [-2 * m + 1, -m, -1, 0, 1, m - 1, rng.randrange(-2 * m + 1, m), m, rng.getrandbits(62 * n) - top]:
+                out(f"c10.hook.bnorm {sat} {hx(m)} {ltok(to_unsat(v, n))} {rng.randrange(2)}")
+    return L
 
 def nontrivial(line):
     toks = line.split()[2:]
